@@ -131,7 +131,10 @@ func (p *Parser) parseShowStatement() (ast.Statement, error) {
 		show.ShowType = upper
 		p.advance()
 	default:
-		// Generic: SHOW <whatever>
+		// Generic: SHOW <whatever> - but not the end of the statement
+		if p.isType(models.TokenTypeEOF) || p.isType(models.TokenTypeSemicolon) {
+			return nil, p.expectedError("what to show after SHOW")
+		}
 		show.ShowType = upper
 		p.advance()
 	}
